@@ -486,6 +486,39 @@ theorem C09_other_codec_is_copied (C : Compression) (minBlocks : Nat) (s : Sourc
   | true => rfl
   | false => exact absurd (mustCopy_false C minBlocks s hm).2.2 h
 
+/-- Filtered merges (`merge_filtered_segments`, `IndexMerger::open_with_custom_alive_set`): each source
+is presented with the intersection of its own deletes and the caller's filter, and `has_deletes()`
+is computed on that intersection (`max_doc − num_alive > 0`). The merged store then holds exactly
+the documents alive in both sets, in order — whether a source is copied or stacked; in particular a
+source that only the caller's filter thins out is never stacked. Nothing about deletes is assumed:
+the `noDeletes` premise of `C09_merge_store` is derived from how `has_deletes()` is computed. -/
+theorem C09_merge_filtered (C : Compression) (hC : GoodCompression C) (K P minBlocks bs : Nat) (hK : 1 ≤ K)
+    (hP : 2 ≤ P) (hbs : bs < 4294967296)
+    (srcs : List (StoreFile × Compression × Option (Nat → Bool) × Option (Nat → Bool) × List Bytes))
+    (hsrc : ∀ s ∈ srcs, Holds s.2.1 P s.1 s.2.2.2.2 ∧ (∀ b, s.2.1.decomp (s.2.1.comp b) = some b) ∧
+      s.2.2.2.2 ≠ [] ∧ (∀ d ∈ s.2.2.2.2, d ≠ [] ∧ bs + d.length < 4294967296) ∧
+      (s.1.decompId = C.id → s.2.1 = C)) :
+    let segs := srcs.map fun s =>
+      (SourceSegment.ofReader s.1 s.2.1 s.2.2.1 s.2.2.2.1 s.2.2.2.2.length, s.2.2.2.2)
+    let live := (srcs.map fun s => liveDocs (intersectAlive s.2.2.1 s.2.2.2.1) 0 s.2.2.2.2).flatten
+    ∃ w, (segs.map (·.1)).foldl (mergeStep C K minBlocks) (some (Writer.new bs)) = some w ∧
+      let merged : StoreFile :=
+        { data := (w.sendBlock C).written, index := finishedLayers P (w.sendBlock C).checkpoints,
+          decompId := C.id, version := Gen.DOC_STORE_VERSION }
+      Holds C P merged live ∧ (live ≠ [] → ∀ i, getBytes C merged i = live[i]?) := by
+  intro segs live
+  have hseg : ∀ p ∈ segs, SegOK C P bs p.1 p.2 := by
+    intro p hp
+    obtain ⟨s, hs, rfl⟩ := List.mem_map.mp hp
+    obtain ⟨h1, h2, h3, h4, h5⟩ := hsrc s hs
+    exact segOK_ofReader C P bs s.1 s.2.1 s.2.2.1 s.2.2.2.1 s.2.2.2.2 h1 h2 h3 h4 h5
+  obtain ⟨w, e, _, hh⟩ := C09_merge_store C hC K P minBlocks bs hK hP hbs segs hseg
+  refine ⟨w, e, ?_⟩
+  have hl : (segs.map fun p => liveDocs p.1.alive 0 p.2).flatten = live := by
+    simp only [segs, live, List.map_map]
+    rfl
+  simpa [hl] using hh
+
 /-- The third path of `write_storable_fields` (non-trivial doc-id mapping, i.e. a sorted index):
 taking, for each entry of the mapping, the next live document of the named segment writes a store
 that holds exactly the picked documents in mapping (= new doc id) order. `its` are the segments'
@@ -671,5 +704,11 @@ example : (runOps Compression.none (writtenStore Compression.none 8 8 9 [[1], [2
     (BlockCache.new 1) [.iter [], .get 2, .iter [false, true, true], .get 0]).1
     = [[some [1], some [2, 3, 4, 5, 6, 7, 8, 9, 10, 11, 12], some [13, 14]], [some [13, 14]],
        [some [2, 3, 4, 5, 6, 7, 8, 9, 10, 11, 12], some [13, 14]], [some [1]]] := by decide +kernel
+
+/-- a segment without own deletes whose caller filter removes document 1: `has_deletes()` is true,
+so it is copied, not stacked -/
+example : (SourceSegment.ofReader (writtenStore Compression.none 8 8 100 [[1], [2], [3]]) Compression.none
+    none (some fun i => i != 1) 3).hasDeletes = true := by decide +kernel
+example : liveDocs (intersectAlive none (some fun i => i != 1)) 0 [[1], [2], [3]] = [[1], [3]] := by decide
 
 end TantivyModel.C09
